@@ -192,6 +192,12 @@ def gen_da(rng):
     if op == 'd.sub' and rng.random() < 0.25:
         # d - (k1, .., kn): a tuple is a PATH into the nested mappings; the key is deleted in a COPY of the branch (review s2 F3: the
         # branch shared with d was written)
+        if rng.random() < 0.4:
+            # a LIST holding paths beside keys: every member is taken on one copy of d, the paths on copies of the branches they go
+            # through (seeded C16-u2: the branch copy skipped when __sub__ recurses with copy = False wrote into d's own nested mapping)
+            ms = ks + [rand_path(rng, d) for _ in range(rng.choice([1, 1, 2]))]
+            rng.shuffle(ms)
+            return dict(tag='d.sub-list-with-path', lines=['(c16 d.sub %s %s)' % (D, enc(ms))])
         return dict(tag='d.sub-path', lines=['(c16 d.sub %s %s)' % (D, enc(rand_path(rng, d)))])
     if op in ('d.sub', 'd.and'):
         # an ABSENT key that happens to spell a dotted path into a nested mapping value ('a.b' where d['a'] is a mapping holding 'b')
